@@ -1,7 +1,7 @@
 """C17 — concurrent edits to separate parts of a document commute after rebasing."""
 from __future__ import annotations
 
-from ..core import Ctx, call, require
+from ..core import Ctx, call, fail_unless_known, require
 from ..draw import Draw
 from ..gen import ops as go
 from ..gen import schemas
@@ -120,8 +120,13 @@ def check(case: dict, ctx: Ctx) -> None:
     require(b2.value is not None, "rebase:dropped", f"B dropped when rebased over A's map; {info}")
     r1 = call("apply", b2.value.apply, da)
     r2 = call("apply", a2.value.apply, db)
-    require(r1.ok and not r1.value.failed, "rebase:apply-failed", f"B' fails after A: {r1.value.failed if r1.ok else r1.exc!r}; {info}")
-    require(r2.ok and not r2.value.failed, "rebase:apply-failed", f"A' fails after B: {r2.value.failed if r2.ok else r2.exc!r}; {info}")
+    sub = {"mode": "c17", "schema": case["schema"], "doc": doc_p, "a": desc_a, "b": desc_b, "hull_a": list(hull(rs, doc_p, desc_a)), "hull_b": list(hull(rs, doc_p, desc_b))}
+    if not (r1.ok and not r1.value.failed):
+        fail_unless_known(ctx, ID, "rebase:apply-failed", sub, f"B' fails after A: {r1.value.failed if r1.ok else r1.exc!r}; {info}")
+        return
+    if not (r2.ok and not r2.value.failed):
+        fail_unless_known(ctx, ID, "rebase:apply-failed", sub, f"A' fails after B: {r2.value.failed if r2.ok else r2.exc!r}; {info}")
+        return
     p1, p2 = P.plain(r1.value.doc), P.plain(r2.value.doc)
     require(p1 == p2, "rebase:diverged", f"A then B' = {p1['c']}  but  B then A' = {p2['c']}; {info}")
     sizes = (da.content.size != doc.content.size, db.content.size != doc.content.size)
